@@ -17,9 +17,11 @@ REPO="${FPCHECK_REPO:-/repo}"
 OUT="${FPCHECK_VERIF:-$VERIF}"
 id="${1:?property id}"; tier="${2:-quick}"
 if [ "$tier" = "--explain" ]; then cat "${3:?replay file}"; echo; exit 0; fi
-if [ ! -x "$VERIF/bin/fpcheck" ] || [ -n "$(find "$VERIF/checker" -name '*.go' -newer "$VERIF/bin/fpcheck" -not -path '*/vendor/*' -print -quit)" ]; then
+# the checker binary is rebuilt whenever its sources changed (content hash, not timestamps: a restored tree has arbitrary mtimes)
+srchash=$(cd "$VERIF/checker" && find . -name '*.go' -not -path './vendor/*' -print0 | sort -z | xargs -0 sha256sum | sha256sum | cut -d' ' -f1)
+if [ ! -x "$VERIF/bin/fpcheck" ] || [ "$(cat "$VERIF/bin/fpcheck.srchash" 2>/dev/null)" != "$srchash" ]; then
   mkdir -p "$VERIF/bin"
-  (cd "$VERIF/checker" && go build -o "$VERIF/bin/fpcheck" ./cmd/fpcheck) || { echo "ERROR: cannot build fpcheck"; exit 2; }
+  (cd "$VERIF/checker" && go build -o "$VERIF/bin/fpcheck.$$" ./cmd/fpcheck && mv "$VERIF/bin/fpcheck.$$" "$VERIF/bin/fpcheck" && echo "$srchash" > "$VERIF/bin/fpcheck.srchash") || { rm -f "$VERIF/bin/fpcheck.$$"; echo "ERROR: cannot build fpcheck"; exit 2; }
 fi
 mkdir -p "$OUT/evidence"
 if [ "$tier" != "thorough" ]; then
@@ -34,8 +36,8 @@ rc=$?
 # (a) second toolchain
 cross="unavailable"
 if command -v go1.26.8 >/dev/null 2>&1; then
-  if [ ! -x "$VERIF/bin/fpcheck126" ] || [ -n "$(find "$VERIF/checker" -name '*.go' -newer "$VERIF/bin/fpcheck126" -not -path '*/vendor/*' -print -quit)" ]; then
-    (cd "$VERIF/checker" && GOFLAGS=-mod=mod go1.26.8 build -modfile="$VERIF/checker126/go.mod" -o "$VERIF/bin/fpcheck126" ./cmd/fpcheck) >/dev/null 2>&1
+  if [ ! -x "$VERIF/bin/fpcheck126" ] || [ "$(cat "$VERIF/bin/fpcheck126.srchash" 2>/dev/null)" != "$srchash" ]; then
+    (cd "$VERIF/checker" && GOFLAGS=-mod=mod go1.26.8 build -modfile="$VERIF/checker126/go.mod" -o "$VERIF/bin/fpcheck126" ./cmd/fpcheck && echo "$srchash" > "$VERIF/bin/fpcheck126.srchash") >/dev/null 2>&1
   fi
   if [ -x "$VERIF/bin/fpcheck126" ]; then
     cp "$VERIF/known_findings.json" "$T/b/" 2>/dev/null
